@@ -21,6 +21,7 @@ def run(ctx):
     ctx.run("C16.RUNNING", "R-LOCK/R-ORDER", par.c16_running)
     ctx.run("C16.GENEXIT", "R-ORDER", par.c16_genexit)
     ctx.run("C16.HEAD-ONLY", "R-FLOW", par.c16_head_only)
+    ctx.run("C01.STATUS-MODE", "R-SIBLING", par.c01_status_mode)
     ctx.run("C01.FIFO", "R-DUAL", par.c01_fifo)
     ctx.run("C16.UNORDERED", "R-ORDER", par.c16_unordered)
     ctx.run("C16.STALE", "R-LOCK/R-ORDER", par.c04_callid)
